@@ -189,6 +189,20 @@ func linesC12(lines []string, rep *Reporter) {
 func runC12(t gen.Tier, r *gen.Rng, rep *Reporter) {
 	g := gen.NewFieldGen(r)
 	samples := 0
+	// the JSON of a field is the JSON of the value it holds NOW: two writes through two writers with a
+	// look at the field (String, Bytes, JSON, Pack) in between
+	for i := 0; i < t.N(1500, 30000); i++ {
+		spec := g.Prim(false)
+		if hasNonePrefix(spec) {
+			continue
+		}
+		g.OutOfDomain = false
+		v1, v2 := g.Value(spec, false), g.Value(spec, false)
+		if g.OutOfDomain {
+			continue
+		}
+		checkOverwriteHistory(rep, r, spec, v1, v2)
+	}
 	for i := 0; i < t.N(3000, 40000); i++ {
 		specT := g.MsgSpec(r.Intn(4))
 		var spec *iso8583.MessageSpec
